@@ -1,6 +1,7 @@
 (* C18 driver.  One request per line:
      hist P:<id>:<key|->:<sn|->:<persisted sn|->:<iid.fmt,...|->:<sig 0|1> ...
-          A:<hdr>:<body> | R:<id>:<sn> (regular adv) | O:<id>:<sn> (populate) | U:<id>:<sn> (_update_state_num) | X (restart) | K:<id>:<key> (key regeneration) ...
+          A:<hdr>:<body> | R:<id>:<sn> (regular adv) | O:<id>:<sn> (populate) | U:<id>:<sn> (_update_state_num) | X (restart) | K:<id>:<key> (key regeneration)
+          | EB:<id>:<g> (connected event up to the key request) | EE:<id>:<g>:<key|fail> (its completion) ...
    body = S.<key>.<ctr>.<aad>.<pt> | J | H.<n,n,...|-> | E
    answer: one token per event  <outcome>/<calls|->/<sn,sn,...>/<psn,psn,...>/<fb 0|1>/<key,key,...>  (description / persisted number and key of every pairing, - = None; fb = falls_back)
      val <fmt> <hex>      -> from_bytes on its own *)
@@ -45,18 +46,23 @@ let handle = function
       let evs = Stdlib.List.filter (fun t -> t.[0] <> 'P') toks in
       let c = ref (Stdlib.List.map pairing_of ps) in
       let outs = Stdlib.List.map (fun t ->
-        let op = match split ':' t with
-          | ["A"; hdr; body] -> Bcast.OAdv (bytes_of_hex hdr, body_of body)
-          | ["R"; id; sn] -> Bcast.OPlain (bytes_of_hex id, n_of_dec sn)
-          | ["O"; id; sn] -> Bcast.OPopulate (bytes_of_hex id, n_of_dec sn)
-          | ["U"; id; sn] -> Bcast.OUpdate (bytes_of_hex id, n_of_dec sn)
-          | ["X"] -> Bcast.ORestart
-          | ["K"; id; k] -> Bcast.OSetKey (bytes_of_hex id, n_of_dec k)
+        let ops = match split ':' t with
+          | ["A"; hdr; body] -> [Bcast.OAdv (bytes_of_hex hdr, body_of body)]
+          | ["R"; id; sn] -> [Bcast.OPlain (bytes_of_hex id, n_of_dec sn)]
+          | ["O"; id; sn] -> [Bcast.OPopulate (bytes_of_hex id, n_of_dec sn)]
+          | ["U"; id; sn] -> [Bcast.OUpdate (bytes_of_hex id, n_of_dec sn)]
+          | ["X"] -> [Bcast.ORestart]
+          | ["K"; id; k] -> [Bcast.OSetKey (bytes_of_hex id, n_of_dec k)]
+          | ["EB"; id; g] -> Bcast.event_begin (bytes_of_hex id) (n_of_dec g)
+          | ["EE"; id; g; r] -> Bcast.event_end (bytes_of_hex id) (n_of_dec g)
+                                  (if r = "fail" then Bcast.ReqFail else Bcast.ReqOk (n_of_dec r))
           | _ -> failwith "event" in
-        let ((c', o), cl) = Bcast.apply !c op in
-        c := c';
-        (match op with Bcast.OAdv _ -> out_str o | _ -> "op") ^ "/" ^ calls_str cl ^ "/" ^ sns_str c' ^ "/" ^ psns_str c'
-        ^ "/" ^ (match op with Bcast.OAdv _ -> if Bcast.falls_back o then "1" else "0" | _ -> "0") ^ "/" ^ keys_str c') evs in
+        let last = ref None in
+        Stdlib.List.iter (fun op -> let ((c', o), cl) = Bcast.apply !c op in c := c'; last := Some (op, o, cl)) ops;
+        (match !last with
+         | Some (Bcast.OAdv _, o, cl) ->
+             out_str o ^ "/" ^ calls_str cl ^ "/" ^ sns_str !c ^ "/" ^ psns_str !c ^ "/" ^ (if Bcast.falls_back o then "1" else "0") ^ "/" ^ keys_str !c
+         | _ -> "op/-/" ^ sns_str !c ^ "/" ^ psns_str !c ^ "/0/" ^ keys_str !c)) evs in
       if outs = [] then "." else Stdlib.String.concat " " outs
   | ["val"; f; h] ->
       (match Bcast.from_bytes (fmt_of f) (bytes_of_hex h) with
